@@ -1146,6 +1146,11 @@ def main(argv):
     except Exception as e:  # anything unexpected is a failure too: never write a partial file
         sys.stderr.write('extract_facts: FAIL: internal error %s: %s\n' % (type(e).__name__, e))
         return 2
+    # regenerated on every run; replaced on disk only when the content differs (an unchanged source keeps the compiled facts)
+    if os.path.exists(output):
+        with open(output, 'r', encoding='ascii', errors='replace') as fh:
+            if fh.read() == text:
+                return 0
     tmp = output + '.tmp'
     with open(tmp, 'w', encoding='ascii') as fh:
         fh.write(text)
